@@ -1,7 +1,7 @@
 #!/bin/bash
 # usage: tools/try_mutant.sh <patch.diff> <PROP> [budget_s] [extra check args]  -- applies to /repo, runs check, reverts
 set -u
-diff="$1"; prop="$2"; budget="${3:-40}"; shift 3 2>/dev/null
+diff="$(readlink -f "$1")"; prop="$2"; budget="${3:-40}"; shift 3 2>/dev/null
 cd /repo || exit 9
 if ! git diff --quiet; then echo "repo dirty"; exit 9; fi
 git apply "$diff" || { echo "apply failed"; exit 9; }
